@@ -24,7 +24,7 @@ type FuncResult struct {
 
 func NewExec(p *Prog, fn *ssa.Function) *Exec {
 	ex := &Exec{p: p, root: fn, rootKey: FuncKey(fn), entry: map[string]*Val{}, globals: map[*ssa.Global]*Obj{}, oblNames: map[string]int{},
-		trustedUsed: map[string]bool{}, calledKeys: map[string]bool{}, cellMeta: map[string]cellMeta{}}
+		trustedUsed: map[string]bool{}, calledKeys: map[string]bool{}, cellMeta: map[string]cellMeta{}, assertsHit: map[string]bool{}}
 	ex.ghost = ex.newObj("ghost", types.NewStruct(nil, nil))
 	ex.ghost.Symbolic = true
 	ex.ghost.Global = true
@@ -99,6 +99,13 @@ func VerifyFunc(p *Prog, fn *ssa.Function) (res *FuncResult) {
 			Goal: Not(Or(pcs...)), PC: True, ScriptLen: len(ex.script), Text: "some return is reachable (this goal must NOT be provable)", ex: ex, Vacuity: true}
 		ex.obls = append(ex.obls, o)
 	}
+	if ct != nil {
+		for _, a := range ct.Asserts {
+			if !ex.assertsHit[fmt.Sprintf("%s:%d", a.Callee, a.K)] {
+				ex.missingLoop = append(ex.missingLoop, fmt.Sprintf("assert anchor: call %s #%d", a.Callee, a.K))
+			}
+		}
+	}
 	res.Obls = ex.obls
 	res.Notes = ex.notes
 	res.SpecErrs = ex.specErrs
@@ -147,7 +154,7 @@ func (ex *Exec) checkPost(fr *Frame, st *State, vs []*Val, k int, pos string) {
 		if c.AtReturn > 0 && c.AtReturn != k {
 			continue
 		}
-		cj := ex.rootCtx(fr, st, ex.oldState, env).conjuncts(c.Expr)
+		cj := ex.goalCtx(fr, st, ex.oldState, env).conjuncts(c.Expr)
 		for j, x := range cj {
 			nm := fmt.Sprintf("post[%s]@return[%d]", clauseLabel(c, i), k)
 			if len(cj) > 1 {
